@@ -45,17 +45,31 @@ def state(h, index):
     return {"cold": False, "set": sorted(index[v] for v in h.warmup_set)}
 
 
+class _Rec:
+    """Stands for the register array while one value is pushed through _hasher_update: records (bucket, rank)."""
+
+    def __init__(self):
+        self.j = self.v = None
+
+    def __getitem__(self, j):
+        return 0
+
+    def __setitem__(self, j, v):
+        self.j, self.v = int(j), v
+
+
 def own_oracle(p, m, width, vals):
-    """(bucket, rank) of every value as the implementation's _hasher_update computes them."""
+    """(bucket, rank) of every value as the implementation's _hasher_update computes them (None if not readable)."""
     out = []
     g = HyperLogLogWCache()
     g.p, g.m, g.width = p, m, width
     for v in vals:
-        g.M = np.zeros(m)
+        g.M = _Rec()
         try:
             g._hasher_update(v)
-            nz = np.nonzero(g.M)[0]
-            out.append([int(nz[0]), int(g.M[nz[0]])] if len(nz) == 1 else None)
+            rec = g.M
+            ok = rec.j is not None and 0 <= rec.j < m and int(rec.v) == rec.v and 0 < int(rec.v) < 256
+            out.append([rec.j, int(rec.v)] if ok else None)
         except Exception:
             out.append(None)
     return out
@@ -183,6 +197,10 @@ def run_big(spec):
     hashes = np.array([xxhash.xxh32(as_bytes(v), seed=p).intdigest() for v in order], dtype=np.uint32)
     res = {"ok": err is None, "error": err, "consts": consts, "checkpoints": out, "n_ops": total,
            "ids": b64(np.array(ids, dtype=np.uint32)), "hashes": b64(hashes), "cold": bool(h.hll_flag)}
+    own = own_oracle(consts["p"], consts["m"], consts["width"], order)
+    if all(o is not None for o in own):
+        res["own_buckets"] = b64(np.array([o[0] for o in own], dtype=np.uint32))
+        res["own_rhos"] = b64(np.array([o[1] for o in own], dtype=np.uint8))
     if err is None:
         if h.hll_flag:
             M = np.asarray(h.M)
